@@ -21,6 +21,7 @@ ASSUMPTIONS = ["a class created later starts with no class components and defaul
                "Environment subclasses are instantiated through their own constructors (no explicit tag possible)"]
 
 TYPES = [CompA, CompB, CompF]     # CompF instances are falsy
+EXTRA = [type(f"CompX{i}", (CompA.__mro__[1],), {}) for i in range(10)]     # ten more component types for LONG templates
 BASES = [Agent, Environment, SpaceWorld]
 
 
@@ -80,7 +81,7 @@ def _run(case, model):
             exp = comps[i]
             if len(cls) != len(exp):
                 raise Violation("class-len", f"{where}: len({cls.__name__}) = {len(cls)}, expected {len(exp)} ({_names(exp)})")
-            for t in TYPES + [CompC, CompD]:
+            for t in TYPES + [CompC, CompD] + EXTRA[:2]:
                 got = cls[t]
                 if got is not exp.get(t):
                     raise Violation("class-component-leak" if t not in exp else "class-component-lost",
@@ -92,7 +93,7 @@ def _run(case, model):
                         raise Violation("class-component-lost", f"{where}: get_class_component strict mismatch on {cls.__name__}")
                 else:
                     expect_raises("class-get-strict-error", ComponentNotFoundError, cls.get_class_component, t, throw_error=True)
-            for pair in ((), (CompA, CompB), (CompB, CompF), (CompA, CompB, CompF)):
+            for pair in ((), (CompA, CompB), (CompB, CompF), (CompA, CompB, CompF), tuple(TYPES + EXTRA), tuple(EXTRA), tuple(EXTRA[:9])):
                 want = all(t in exp for t in pair)
                 if cls.has_class_component(*pair) != want:
                     raise Violation("class-has-allof", f"{where}: {cls.__name__}.has_class_component{tuple(t.__name__ for t in pair)} "
@@ -108,6 +109,11 @@ def _run(case, model):
             for t in TYPES:
                 if (t in obj) != (t in ecomps):
                     raise Violation("instance-components", f"{where}: {t.__name__} in instance is {t in obj}")
+            for tmpl in (tuple(ecomps), tuple(ecomps) + tuple(EXTRA[:2]), tuple(EXTRA), tuple(list(ecomps) + EXTRA), tuple(EXTRA[:9])):
+                want = all(t in ecomps for t in tmpl)       # templates of any length, also 9+ types: all-of over the INSTANCE's own components
+                if obj.has_component(*tmpl) != want:
+                    raise Violation("instance-has-allof", f"{where}: instance of {type(obj).__name__}.has_component({len(tmpl)} types) = "
+                                                          f"{not want}; instance has {_names(ecomps)}, its class has {_names(comps[classes.index(type(obj))])}")
 
     verify("fresh tree")
     for k, op in enumerate(case["ops"]):
@@ -115,7 +121,25 @@ def _run(case, model):
         ci = targets[int(op.get("cls", 0)) % len(targets)]
         cls = classes[ci]
         where = f"after op {k} {op} on {cls.__name__}"
-        if kind == "add_cc":
+        if kind == "fill_cc":                         # give the class (or an instance) ALL extra types: long templates become satisfiable
+            for t in EXTRA:
+                if t not in comps[ci]:
+                    comp = t(cls, model)
+                    cls.add_class_component(comp)
+                    comps[ci][t] = comp
+            class_change_with_relatives |= relatives(ci)
+            labels.add("class-with-13-types")
+        elif kind == "fill_inst":
+            if not instances:
+                continue
+            obj, etag, ecomps = instances[int(op.get("i", 0)) % len(instances)]
+            for t in EXTRA:
+                if t not in ecomps:
+                    comp = t(obj, model)
+                    obj.add_component(comp)
+                    ecomps[t] = comp
+            labels.add("instance-with-10+-types")
+        elif kind == "add_cc":
             t = TYPES[int(op["t"]) % 3]
             comp = t(cls, model)
             if t in comps[ci]:
@@ -200,6 +224,8 @@ def strategy(tier):
         st.fixed_dictionaries({"op": st.just("new"), "cls": cls, "tag": wone_of(st.none(), st.none(), st.integers(0, 5))}),
         st.fixed_dictionaries({"op": st.just("inst_add"), "i": st.integers(0, 9), "t": t}),
         st.fixed_dictionaries({"op": st.just("subclass"), "cls": cls}),
+        st.fixed_dictionaries({"op": st.just("fill_cc"), "cls": cls}),
+        st.fixed_dictionaries({"op": st.just("fill_inst"), "i": st.integers(0, 9)}),
     )
     return st.fixed_dictionaries({
         "classes": st.lists(wone_of(st.just(-1), st.just(-1), st.integers(0, 9)), min_size=2, max_size=7),
